@@ -49,13 +49,79 @@ type Data = Vec<(u8, u32)>;
 #[derive(Serialize, Deserialize, Clone, Debug)]
 enum Node {
     R { pats: Pats, g: Vec<G>, routes: Vec<(Vec<G>, u32)>, dflt: Option<u32>, data: Option<Data> },
-    S { prefix: Pattern, g: Vec<G>, kids: Vec<Node>, dflt: Option<u32>, data: Option<Data> },
+    S {
+        prefix: Pattern,
+        g: Vec<G>,
+        kids: Vec<Node>,
+        dflt: Option<u32>,
+        data: Option<Data>,
+        /// the builder calls that register the above (None = services, default, data in that order)
+        #[serde(default)]
+        plan: Option<Vec<Call>>,
+    },
+}
+/// one builder call on a scope / the App / a `ServiceConfig`
+#[derive(Serialize, Deserialize, Clone, Debug)]
+enum Call {
+    /// `.service(kids[i])`
+    S(usize),
+    /// `.default_service(handler id)`
+    D(u32),
+    /// `.app_data(K<k>(v))`
+    A(u8, u32),
+    /// `.configure(|cfg| { calls })`
+    C(Vec<Call>),
 }
 #[derive(Serialize, Deserialize, Clone, Debug)]
 struct AppT {
     kids: Vec<Node>,
     dflt: Option<u32>,
     data: Data,
+    #[serde(default)]
+    plan: Option<Vec<Call>>,
+}
+
+/// a direct `.default_service(..)` followed later by a direct `.configure(..)`
+fn default_before_configure(plan: &[Call]) -> bool {
+    let d = plan.iter().position(|c| matches!(c, Call::D(_)));
+    let c = plan.iter().rposition(|c| matches!(c, Call::C(_)));
+    matches!((d, c), (Some(d), Some(c)) if d < c)
+}
+fn canon_plan(nkids: usize, dflt: &Option<u32>, data: &[(u8, u32)]) -> Vec<Call> {
+    let mut v: Vec<Call> = (0..nkids).map(Call::S).collect();
+    if let Some(d) = dflt {
+        v.push(Call::D(*d));
+    }
+    v.extend(data.iter().map(|(k, x)| Call::A(*k, *x)));
+    v
+}
+fn flatten<'a>(calls: &'a [Call], out: &mut Vec<&'a Call>) {
+    for c in calls {
+        match c {
+            Call::C(inner) => flatten(inner, out),
+            other => out.push(other),
+        }
+    }
+}
+/// a plan must denote the abstract table it is attached to: the services in order, the LAST
+/// default call = the table's default, the data inserts in order = the table's data
+fn plan_denotes(plan: &[Call], nkids: usize, dflt: &Option<u32>, data: &[(u8, u32)]) -> bool {
+    let mut flat = vec![];
+    flatten(plan, &mut flat);
+    let svcs: Vec<usize> = flat.iter().filter_map(|c| if let Call::S(i) = c { Some(*i) } else { None }).collect();
+    let last_d = flat.iter().rev().find_map(|c| if let Call::D(d) = c { Some(*d) } else { None });
+    let dat: Vec<(u8, u32)> = flat.iter().filter_map(|c| if let Call::A(k, v) = c { Some((*k, *v)) } else { None }).collect();
+    svcs == (0..nkids).collect::<Vec<_>>() && last_d == *dflt && dat == data
+}
+fn check_plans(kids: &[Node]) {
+    for k in kids {
+        if let Node::S { kids, dflt, data, plan, .. } = k {
+            if let Some(p) = plan {
+                assert!(plan_denotes(p, kids.len(), dflt, data.as_deref().unwrap_or(&[])), "plan does not denote the table");
+            }
+            check_plans(kids);
+        }
+    }
 }
 #[derive(Serialize, Deserialize, Clone, Debug)]
 struct Rq {
@@ -137,32 +203,40 @@ fn coq_guard(g: &G) -> String {
 fn coq_data(d: &Data) -> String {
     coq_list(d, |(k, v)| format!("({k},{v})"))
 }
+fn coq_calls(plan: &[Call], kids: &[Node]) -> String {
+    coq_list(plan, |c| match c {
+        Call::S(i) => coq_node(&kids[*i]),
+        Call::D(d) => format!("BDefault {d}"),
+        Call::A(k, v) => format!("BData {k} {v}"),
+        Call::C(inner) => format!("BConfigure {}", coq_calls(inner, kids)),
+    })
+}
 fn coq_node(n: &Node) -> String {
     match n {
         Node::R { pats, g, routes, dflt, data } => format!(
-            "Resource {} {} {} {} {}",
+            "BRes {} {} {} {} {}",
             coq_pats(pats),
             coq_list(g, coq_guard),
             coq_list(routes, |(gs, id)| format!("({},{})", coq_list(gs, coq_guard), id)),
             coq_opt(dflt, |d| d.to_string()),
             coq_opt(data, coq_data)
         ),
-        Node::S { prefix, g, kids, dflt, data } => format!(
-            "Scope ({}) {} {} {} {}",
-            coq_pattern(prefix),
-            coq_list(g, coq_guard),
-            coq_list(kids, coq_node),
-            coq_opt(dflt, |d| d.to_string()),
-            coq_opt(data, coq_data)
-        ),
+        Node::S { prefix, g, kids, dflt, data, plan } => {
+            let canon = canon_plan(kids.len(), dflt, data.as_deref().unwrap_or(&[]));
+            format!(
+                "BScope ({}) {} {}",
+                coq_pattern(prefix),
+                coq_list(g, coq_guard),
+                coq_calls(plan.as_ref().unwrap_or(&canon), kids)
+            )
+        }
     }
 }
 fn coq_case(c: &Case) -> String {
+    let canon = canon_plan(c.app.kids.len(), &c.app.dflt, &c.app.data);
     format!(
-        "K (mkApp {} {} {}) {}",
-        coq_list(&c.app.kids, coq_node),
-        coq_opt(&c.app.dflt, |d| d.to_string()),
-        coq_data(&c.app.data),
+        "K {} {}",
+        coq_calls(c.app.plan.as_ref().unwrap_or(&canon), &c.app.kids),
         coq_list(&c.reqs, |r| format!(
             "Rq {} {} {} {}",
             r.m,
@@ -303,28 +377,53 @@ fn mk_node(n: &Node) -> Svc {
             }
             Svc::R(r)
         }
-        Node::S { prefix, g, kids, dflt, data } => {
+        Node::S { prefix, g, kids, dflt, data, plan } => {
             let mut s = web::scope(&pattern_text(prefix));
             for x in g {
                 s = s.guard(mk_guard(x));
             }
-            for k in kids {
-                s = s.service(mk_node(k));
-            }
-            if let Some(d) = dflt {
-                let d = *d;
-                s = s.default_service(web::to(move |req: HttpRequest| report(req, 'd', d)));
-            }
-            if let Some(data) = data {
-                for (k, v) in data {
-                    s = match k {
+            let canon = canon_plan(kids.len(), dflt, data.as_deref().unwrap_or(&[]));
+            for call in plan.as_ref().unwrap_or(&canon) {
+                s = match call {
+                    Call::S(i) => s.service(mk_node(&kids[*i])),
+                    Call::D(d) => {
+                        let d = *d;
+                        s.default_service(web::to(move |req: HttpRequest| report(req, 'd', d)))
+                    }
+                    Call::A(k, v) => match k {
                         0 => s.app_data(K0(*v)),
                         1 => s.app_data(K1(*v)),
                         _ => s.app_data(K2(*v)),
-                    };
-                }
+                    },
+                    Call::C(inner) => s.configure(|cfg| apply_cfg(cfg, inner, kids)),
+                };
             }
             Svc::S(s)
+        }
+    }
+}
+
+/// the calls of one `configure` closure, on its `ServiceConfig`
+fn apply_cfg(cfg: &mut web::ServiceConfig, calls: &[Call], kids: &[Node]) {
+    for call in calls {
+        match call {
+            Call::S(i) => {
+                cfg.service(mk_node(&kids[*i]));
+            }
+            Call::D(d) => {
+                let d = *d;
+                cfg.default_service(web::to(move |req: HttpRequest| report(req, 'd', d)));
+            }
+            Call::A(k, v) => {
+                match k {
+                    0 => cfg.app_data(K0(*v)),
+                    1 => cfg.app_data(K1(*v)),
+                    _ => cfg.app_data(K2(*v)),
+                };
+            }
+            Call::C(inner) => {
+                cfg.configure(|c| apply_cfg(c, inner, kids));
+            }
         }
     }
 }
@@ -340,18 +439,21 @@ fn run_impl(c: &Case) -> Vec<Answer> {
     let c = c.clone();
     vh::exec::run_local(async move {
         let mut app = App::new();
-        for (k, v) in &c.app.data {
-            app = match k {
-                0 => app.app_data(K0(*v)),
-                1 => app.app_data(K1(*v)),
-                _ => app.app_data(K2(*v)),
+        let canon = canon_plan(c.app.kids.len(), &c.app.dflt, &c.app.data);
+        for call in c.app.plan.as_ref().unwrap_or(&canon) {
+            app = match call {
+                Call::S(i) => app.service(mk_node(&c.app.kids[*i])),
+                Call::D(d) => {
+                    let d = *d;
+                    app.default_service(web::to(move |req: HttpRequest| report(req, 'd', d)))
+                }
+                Call::A(k, v) => match k {
+                    0 => app.app_data(K0(*v)),
+                    1 => app.app_data(K1(*v)),
+                    _ => app.app_data(K2(*v)),
+                },
+                Call::C(inner) => app.configure(|cfg| apply_cfg(cfg, inner, &c.app.kids)),
             };
-        }
-        for k in &c.app.kids {
-            app = app.service(mk_node(k));
-        }
-        if let Some(d) = c.app.dflt {
-            app = app.default_service(web::to(move |req: HttpRequest| report(req, 'd', d)));
         }
         let srv = test::init_service(app).await;
         let mut out = vec![];
@@ -716,6 +818,51 @@ impl Ids {
     }
 }
 
+/// a random sequence of builder calls denoting (nkids services, dflt, data): the three ordered
+/// streams are merged at random (decoy defaults before the real one), then consecutive calls are
+/// wrapped at random into `.configure(..)` closures (possibly empty, possibly nested)
+fn gen_plan(rng: &mut Rng, ids: &mut Ids, nkids: usize, dflt: &Option<u32>, data: &[(u8, u32)]) -> Vec<Call> {
+    let mut svcs: std::collections::VecDeque<Call> = (0..nkids).map(Call::S).collect();
+    let mut dats: std::collections::VecDeque<Call> = data.iter().map(|(k, v)| Call::A(*k, *v)).collect();
+    let mut dfls: std::collections::VecDeque<Call> = Default::default();
+    if let Some(d) = dflt {
+        for _ in 0..rng.below(3).saturating_sub(1) {
+            dfls.push_back(Call::D(ids.next())); // overwritten later
+        }
+        dfls.push_back(Call::D(*d));
+    }
+    let mut flat = vec![];
+    while !(svcs.is_empty() && dats.is_empty() && dfls.is_empty()) {
+        let q = match rng.below(5) {
+            0 | 1 => &mut svcs,
+            2 => &mut dats,
+            _ => &mut dfls, // defaults tend to come early: more calls follow them
+        };
+        if let Some(c) = q.pop_front() {
+            flat.push(c);
+        }
+    }
+    fn wrap(rng: &mut Rng, flat: Vec<Call>, depth: u32) -> Vec<Call> {
+        let mut out = vec![];
+        let mut it = flat.into_iter().peekable();
+        while it.peek().is_some() {
+            if rng.chance(if depth == 0 { 2 } else { 1 }, 5) {
+                let n = rng.below(4) as usize; // 0 = a configure closure that registers nothing
+                let group: Vec<Call> = (&mut it).take(n).collect();
+                let group = if depth < 2 { wrap(rng, group, depth + 1) } else { group };
+                out.push(Call::C(group));
+            } else {
+                out.push(it.next().unwrap());
+            }
+        }
+        if rng.chance(1, 4) {
+            out.push(Call::C(vec![]));
+        }
+        out
+    }
+    wrap(rng, flat, 0)
+}
+
 fn gen_data(rng: &mut Rng, p_some: u64) -> Option<Data> {
     if rng.chance(p_some, 100) {
         Some((0..rng.range(1, 2)).map(|_| (rng.below(3) as u8, rng.range(1, 99) as u32)).collect())
@@ -755,13 +902,15 @@ fn gen_kids(rng: &mut Rng, ids: &mut Ids, level: u32, max_kids: u64) -> Vec<Node
                 prefix = gen_pattern(rng, true);
             }
             last_pat = Some(prefix.clone());
-            kids.push(Node::S {
-                prefix,
-                g: gen_guards(rng, if overlap { 20 } else { 25 }),
-                kids: gen_kids(rng, ids, level + 1, max_kids),
-                dflt: if rng.chance(3, 10) { Some(ids.next()) } else { None },
-                data: gen_data(rng, 40),
-            });
+            let sub = gen_kids(rng, ids, level + 1, max_kids);
+            let dflt = if rng.chance(3, 10) { Some(ids.next()) } else { None };
+            let data = gen_data(rng, 40);
+            let plan = if rng.chance(1, 2) {
+                Some(gen_plan(rng, ids, sub.len(), &dflt, data.as_deref().unwrap_or(&[])))
+            } else {
+                None
+            };
+            kids.push(Node::S { prefix, g: gen_guards(rng, if overlap { 20 } else { 25 }), kids: sub, dflt, data, plan });
         } else {
             let pats = if overlap {
                 Pats::S(overlapping(rng, last_pat.as_ref().unwrap()))
@@ -797,11 +946,10 @@ fn gen_kids(rng: &mut Rng, ids: &mut Ids, level: u32, max_kids: u64) -> Vec<Node
 fn gen_app(rng: &mut Rng, max_kids: u64) -> AppT {
     let mut ids = Ids(0);
     let kids = gen_kids(rng, &mut ids, 0, max_kids);
-    AppT {
-        kids,
-        dflt: if rng.chance(2, 5) { Some(ids.next()) } else { None },
-        data: if rng.chance(1, 2) { (0..rng.range(1, 2)).map(|_| (rng.below(3) as u8, rng.range(1, 99) as u32)).collect() } else { vec![] },
-    }
+    let dflt = if rng.chance(2, 5) { Some(ids.next()) } else { None };
+    let data: Data = if rng.chance(1, 2) { (0..rng.range(1, 2)).map(|_| (rng.below(3) as u8, rng.range(1, 99) as u32)).collect() } else { vec![] };
+    let plan = if rng.chance(1, 2) { Some(gen_plan(rng, &mut ids, kids.len(), &dflt, &data)) } else { None };
+    AppT { kids, dflt, data, plan }
 }
 
 const DVALS: &[&str] = &["x", "ab", "1", "a%2Fb", "%41", "a+b", "a%2Bb", "a.b", "12", "a%25", "%61b", "Q"];
@@ -978,7 +1126,19 @@ fn count_nodes(kids: &[Node], depth: usize, maxd: &mut usize, tags: &mut Vec<Str
                     tags.push("res:data".into());
                 }
             }
-            Node::S { prefix, g, kids, dflt, data } => {
+            Node::S { prefix, g, kids, dflt, data, plan } => {
+                if let Some(p) = plan {
+                    let mut flat = vec![];
+                    flatten(p, &mut flat);
+                    if p.iter().any(|c| matches!(c, Call::C(_))) {
+                        tags.push("scope:built-with-configure".into());
+                        let first_d = flat.iter().position(|c| matches!(c, Call::D(_)));
+                        let _ = first_d;
+                    }
+                    if default_before_configure(p) {
+                        tags.push("scope:default-then-configure".into());
+                    }
+                }
                 let t = pattern_text(prefix);
                 tags.push(
                     if t.is_empty() {
@@ -1028,6 +1188,10 @@ fn norm(kids: &mut [Node]) {
 
 fn emit_case(em: &mut Emitter, id: String, mut c: Case) {
     norm(&mut c.app.kids);
+    check_plans(&c.app.kids);
+    if let Some(p) = &c.app.plan {
+        assert!(plan_denotes(p, c.app.kids.len(), &c.app.dflt, &c.app.data), "app plan does not denote the table");
+    }
     let r = catch(|| run_impl(&c));
     let mut tags = vec![];
     let mut maxd = 0;
@@ -1035,6 +1199,14 @@ fn emit_case(em: &mut Emitter, id: String, mut c: Case) {
     tags.push(format!("levels:{maxd}"));
     if c.app.dflt.is_some() {
         tags.push("app:custom-default".into());
+    }
+    if let Some(p) = &c.app.plan {
+        if p.iter().any(|c| matches!(c, Call::C(_))) {
+            tags.push("app:built-with-configure".into());
+        }
+        if default_before_configure(p) {
+            tags.push("app:default-then-configure".into());
+        }
     }
     let mut text = String::new();
     for k in &c.app.kids {
